@@ -11,7 +11,7 @@ From Coq Require Import String Ascii.
 From Coq Require Import List NArith Arith Bool.
 From HV Require Import Base.Res Base.Str Model.Parse Model.ValKinds Model.ValStr Model.Validate.
 From HV Require Import Gen.ValidationCodes Proofs.ValidateProofs Proofs.ValidateDups Proofs.ValidateTemporal
-  Proofs.ValidateMut Proofs.C01Examples Proofs.C01ExamplesProofs.
+  Proofs.ValidateMut Model.ValValue Proofs.ValValueProofs Proofs.C01Examples Proofs.C01ExamplesProofs.
 Import ListNotations.
 
 Definition s2l (s : String.string) : str := map Ascii.N_of_ascii (String.list_ascii_of_string s).
@@ -428,6 +428,40 @@ Theorem C01_mutation_onset_placeholder_wrong : forall cfg s f g onset oi dt di,
   reports cfg s f (spec_code R_temporal_shape).
 Proof. exact rule_onset_placeholder_wrong. Qed.
 Print Assumptions C01_mutation_onset_placeholder_wrong.
+
+(* ------------------------------------------------------------------ value classes (one or SEVERAL per tag) *)
+(* UnitValueValidator._check_value_class on the per-class verdicts (word form accepted? problem characters?) of the
+   implementation's CharRexValidator: a value is accepted exactly when the tag has no value class or ONE class
+   accepts it completely -- word form AND characters judged for the same class (Loudness/# has numericClass and
+   nameClass: "5.5.5" has a valid name word form and numeric characters only, but no single class accepts it). *)
+Theorem C01_value_accept_iff : forall cls,
+  value_class_issues true cls = [] <-> (cls = [] \/ exists c, In c cls /\ class_accepts c = true).
+Proof. exact value_accept_iff. Qed.
+Print Assumptions C01_value_accept_iff.
+
+Theorem C01_mutation_bad_value_classes : forall cfg s f t cls c,
+  phase2_clean cfg s f -> phase3_total cfg f -> In t (all_tags f) ->
+  str_eqb (sbase_of t) c_DEF_KEY = false -> str_eqb (sbase_of t) c_DEF_EXPAND_KEY = false ->
+  str_eqb (sbase_of t) c_DEFINITION_KEY = false ->
+  memb ch_hash (extension t) = false -> str_eqb (extension t) [ch_hash] = false ->
+  tf_unit_class t = false -> tf_value_class t = true ->
+  tf_values t = Ok (value_class_issues true cls) ->
+  existsb class_accepts cls = false -> In c cls -> cv_word c = false ->
+  reports cfg s f (spec_code R_bad_value).
+Proof. exact rule_bad_value_classes. Qed.
+Print Assumptions C01_mutation_bad_value_classes.
+
+(* ------------------------------------------------------------------ one validator object, many annotations *)
+(* operation-sequence model of a HedValidator object ([vrun]: the state is what the object keeps between calls):
+   the verdict on an annotation is a function of (configuration, annotation) only, whatever was validated
+   before or after with the same object.  The model has no mutable state, so this is immediate; that the
+   IMPLEMENTATION's object behaves like the model's is the "history-independent" clause of the check
+   (sequences on one HedValidator vs a fresh one, and vs [vrun]) -- tested, not proved. *)
+Theorem C01_history_independent : forall st before x after,
+  nth_error (snd (vrun st (before ++ x :: after))) (length before)
+  = Some (validate (vs_cfg st) (fst x) (snd x)).
+Proof. exact history_independent. Qed.
+Print Assumptions C01_history_independent.
 
 (* ------------------------------------------------------------------ relational form (string-level rules) *)
 (* [MutString cfg f r x]: x is the canonical text of f with exactly one violation of the string-level rule r
